@@ -82,6 +82,90 @@ def unwind_drops(f, call_block):
     return out
 
 
+def rule_reset_complete(ctx, fx, config, prop="C15"):
+    """reset() clears every field of the thread's anchor state on every path.  A clear that sits behind a "something was stored"
+    flag is accepted only when every function that inserts into the field sets that flag — otherwise what one document registered
+    survives its scope: a hidden strong owner (weak edges never dangle) and the next document's anchors resolve to the old graph."""
+    rs = fx.fn("anchor_store::reset")
+    ctx.saw(rs)
+    st = fx.adt("anchor_store::AnchorState")
+    store = fx.adt("anchor_store::AnchorStore")
+    store_fields = {"store." + x["name"] for x in store["variants"][0]["fields"]}
+    fields = {x["name"] for x in st["variants"][0]["fields"] if x["name"] != "store"} | store_fields
+    fam = list(fx.family(rs))
+
+    def field_of(r):
+        m = re.search(r"\.((?:store\.)?\w+)\)*$", r)
+        return m.group(1) if m and m.group(1) in fields else None
+    # clearing sites per field: `.clear()` on the field, or an assignment of a constant / default to it
+    sites = {}
+    for g in fam:
+        for b, t in g.calls():
+            if last_seg(fx.callee(t)) == "clear" and t["args"]:
+                with g.deep():
+                    fld = field_of(render(g.sym_operand(t["args"][0])))
+                if fld:
+                    sites.setdefault(fld, []).append((g, b))
+        for b, i, s_ in g.stmts():
+            if s_["k"] == "assign" and s_["p"]["pr"]:
+                with g.deep():
+                    fld = field_of(render(g.sym_place(s_["p"])))
+                v = g.sym_rvalue(s_["rv"])
+                if fld and (v[0] == "const" or (v[0] == "call" and last_seg(v[1]) in ("default", "new", "take"))):
+                    sites.setdefault(fld, []).append((g, b))
+    n = 0
+    for fld in sorted(fields):
+        n += 1
+        ss = sites.get(fld, [])
+        if not ctx.check(bool(ss), "STATE", "%s:STATE:reset-complete:%s" % (prop, fld), "reset() clears `%s`" % fld, "reset() does not clear `%s`" % fld, config, ctx.where(rs)):
+            continue
+        g = ss[0][0]
+        blocks = [b for g2, b in ss if g2 is g]
+        if must_pass(g, [0], blocks):
+            ctx.ok("STATE", "%s:STATE:reset-complete:%s:every-path" % (prop, fld), "`%s` is cleared on every path of reset()" % fld, config, ctx.where(g, blocks[0]))
+            continue
+        # conditional: find the flag(s) guarding every clearing site
+        flags = set()
+        for b in blocks:
+            for sb, sym, tt, ff in bool_switches(g):
+                with g.deep():
+                    r = render(g.sym_operand(g.blocks[sb]["term"]["o"]))
+                fl = field_of(r)
+                if fl and g.edge_dominates(sb, tt, b):
+                    flags.add(fl)
+        okf = False
+        missing = []
+        if len(flags) == 1 and fld != list(flags)[0]:
+            flag = list(flags)[0]
+            okf = True
+            for h in fx.fns.values():
+                if not h.npath.startswith("anchor_store::"):
+                    continue
+                ins = []
+                for b, t in h.calls():
+                    if last_seg(fx.callee(t)) in ("insert", "push", "entry", "extend") and t["args"]:
+                        with h.deep():
+                            if field_of(render(h.sym_operand(t["args"][0]))) == fld:
+                                ins.append(b)
+                if not ins:
+                    continue
+                sets = []
+                for b, i, s_ in h.stmts():
+                    if s_["k"] == "assign" and s_["p"]["pr"]:
+                        with h.deep():
+                            if field_of(render(h.sym_place(s_["p"]))) == flag and h.sym_rvalue(s_["rv"]) == ("const", True, "bool"):
+                                sets.append(b)
+                if not (sets and all(must_pass(h, [ib], sets) or any(h.dominates(sb2, ib) for sb2 in sets) for ib in ins)):
+                    okf = False
+                    missing.append(h.npath)
+        elif fld in flags and len(flags) == 1:
+            # the flag itself: reset to false under its own test — it is false on the other path already
+            okf = True
+        ctx.check(okf, "STATE", "%s:STATE:reset-complete:%s:every-path" % (prop, fld), "`%s` is cleared behind a flag that every inserter sets" % fld,
+                  "reset() clears `%s` only on some paths%s: what one document registered there survives its scope (a hidden strong owner keeps weak edges alive; the next document's anchors resolve to the previous document's values)" % (fld, (" (behind `%s`, which %s never set(s))" % (sorted(flags)[0], sorted(missing))) if missing else ""), config, ctx.where(g, blocks[0]))
+    ctx.floor("STATE.reset-fields", n, 6, config)
+
+
 def run(ctx):
     for config in ctx.configs:
         fx = ctx.facts(config)
@@ -138,22 +222,7 @@ def run(ctx):
             ctx.check(must_pass(ds, [ds.blocks[fb]["term"]["t"]], drops), "STATE", "C15:STATE:document-scope:drop-after", "the guard is dropped on every normal path after the user code", "the reset guard can survive with_document_scope (forgotten / moved out)", config, ctx.where(ds, fb))
         gd = [f for f in fx.fns.values() if f.d.get("impl_trait") == "std::ops::Drop" and f.npath.endswith("ResetGuard as std::ops::Drop>::drop")]
         ctx.check(len(gd) == 1 and any(fx.callee(t) == "anchor_store::reset" for b, t in gd[0].calls()), "STATE", "C15:STATE:document-scope:guard-drop-resets", "ResetGuard::drop resets the store", "ResetGuard::drop no longer resets the anchor store", config, ctx.where(ds))
-        # reset clears every field of the state
-        rs = fx.fn("anchor_store::reset")
-        ctx.saw(rs)
-        st = fx.adt("anchor_store::AnchorState")
-        store = fx.adt("anchor_store::AnchorStore")
-        want = {"s." + x["name"] for x in st["variants"][0]["fields"] if x["name"] != "store"} | {"s.store." + x["name"] for x in store["variants"][0]["fields"]}
-        cleared = set()
-        for g in fx.family(rs):
-            for b, t in g.calls():
-                if last_seg(fx.callee(t)) == "clear":
-                    with g.deep():
-                        a = render(g.sym_operand(t["args"][0]))
-                    m = re.search(r"(stack|store\.\w+|in_progress)\)*$", a)
-                    if m:
-                        cleared.add("s." + m.group(1))
-        ctx.check(want <= cleared, "STATE", "C15:STATE:reset-complete", "reset() clears every field of the anchor state (%d)" % len(want), "reset() does not clear %s" % sorted(want - cleared), config, ctx.where(rs))
+        rule_reset_complete(ctx, fx, config)
         # ---- 4. with_anchor_context
         ac = fx.fn("anchor_store::with_anchor_context")
         ctx.saw(ac)
